@@ -216,16 +216,30 @@ Proof. reflexivity. Qed.
 Print Assumptions C19_deterministic.
 
 (* ----------------------------------------------------------------- CLI -- *)
-(* F14a: on the pinned code (out-file opened while the arguments are parsed) an invalid
-   input with an existing output path leaves the path truncated. *)
-Theorem C19_cli_atomic_refuted :
+(* The machine is selected by T_SchemaTables.cli_output_opened_at_parse, which the translator
+   obtains from the source by calling cli.FileTypeWithExt('w') on a fresh path and looking
+   whether the file exists afterwards.  On the repaired code (fix F14a, /repo 22e049c) the
+   output is opened on the first write: every invalid input exits non-zero and leaves the
+   output path exactly as it was, for every prior content.  If the source goes back to opening
+   the file while the arguments are parsed, the table flips and this proof stops compiling. *)
+Theorem C19_cli_atomic :
+  forall i before, cli_valid i = false ->
+  out_file (cli_run cli_output_opened_at_parse i before) = before /\
+  exists n, exit_code (cli_run cli_output_opened_at_parse i before) = Some n /\ n <> 0%N.
+Proof. intros i before H. split; [exact (cli_lazy_intact i before H)|exact (cli_invalid_exit false i before H)]. Qed.
+Print Assumptions C19_cli_atomic.
+
+Theorem C19_cli_valid_writes : forall eager code before, cli_run eager (InDoc code) before = CliState (Some code) (Some 0%N).
+Proof. exact cli_valid_writes. Qed.
+Print Assumptions C19_cli_valid_writes.
+
+(* NOT CLAIMED about the current code — statements about the PRE-FIX machine (eager = true:
+   argparse FileType('w') opened the output during parse_args), kept as the record of F14a and
+   as what a regression would look like. *)
+Theorem C19_prefix_cli_atomic_refuted :
   exists i before, cli_valid i = false /\ out_file (cli_run true i (Some before)) <> Some before.
 Proof. exists InSyntaxError, (S "# precious"). split; [reflexivity|vm_compute; discriminate]. Qed.
-Print Assumptions C19_cli_atomic_refuted.
-
-(* What does hold: every invalid input exits non-zero; an unreadable in-file leaves the
-   output path untouched (argparse opens in-file first); every other invalid input leaves it empty. *)
-Theorem C19_cli_atomic_partial :
+Theorem C19_prefix_cli_atomic_partial :
   forall i before, cli_valid i = false ->
   (exists n, exit_code (cli_run true i before) = Some n /\ n <> 0%N) /\
   (i = InUnreadable -> out_file (cli_run true i before) = before) /\
@@ -235,19 +249,6 @@ Proof.
   - intros ->. exact (cli_unreadable_intact true before).
   - exact (cli_truncates i before H).
 Qed.
-Print Assumptions C19_cli_atomic_partial.
-
-(* With the output opened on the first write (proposed fix F14a) the clause holds for
-   every invalid input and every prior content of the output path. *)
-Theorem C19_cli_atomic_lazy :
-  forall i before, cli_valid i = false ->
-  out_file (cli_run false i before) = before /\ exists n, exit_code (cli_run false i before) = Some n /\ n <> 0%N.
-Proof. intros i before H. split; [exact (cli_lazy_intact i before H)|exact (cli_invalid_exit false i before H)]. Qed.
-Print Assumptions C19_cli_atomic_lazy.
-
-Theorem C19_cli_valid_writes : forall eager code before, cli_run eager (InDoc code) before = CliState (Some code) (Some 0%N).
-Proof. exact cli_valid_writes. Qed.
-Print Assumptions C19_cli_valid_writes.
 
 (* ---------------------------------------------------------------- tie T -- *)
 (* the bool-looking strings, the PyDataType members and the singularize tables regenerated
@@ -259,7 +260,7 @@ Theorem C19_tables :
   singularize_uncountable = [(S "equipment"); (S "information"); (S "rice"); (S "money"); (S "species"); (S "series"); (S "fish"); (S "sheep"); (S "sms")] /\
   singularize_irregular = [((S "people"), (S "person")); ((S "men"), (S "man")); ((S "children"), (S "child")); ((S "sexes"), (S "sex")); ((S "moves"), (S "move"))] /\
   (forall a, In a [S "from_dict"; S "to_dict"; S "from_json"; S "to_json"; S "from_list"; S "list_to_json"] -> In a jsonwizard_attrs) /\
-  cli_output_opened_at_parse = true.
+  cli_output_opened_at_parse = false.
 Proof.
   repeat split; try reflexivity.
   intros a Ha. cbn in Ha. repeat (destruct Ha as [<-|Ha]; [cbn; tauto|]). destruct Ha.
